@@ -65,6 +65,7 @@ type interpreter struct {
 	funcsSeen map[*ssa.Function]bool
 	natives   map[*value]any // lifted AST node -> native object (for native accessors)
 	harness   *harnessState
+	depthIsViolation bool
 }
 
 type deferred struct {
@@ -487,6 +488,10 @@ func callSSA(i *interpreter, caller *frame, callpos token.Pos, fn *ssa.Function,
 		fr.th = i.sched.cur
 	}
 	if b := i.ex.budgets.MaxDepth; b > 0 && fr.depth > b {
+		if i.depthIsViolation {
+			i.ex.Fail("bound", "unbounded-recursion", fmt.Sprintf("call depth %d exceeded in %s: unbounded recursion overflows the goroutine stack (fatal)", b, fn))
+			panic(pathAbort{"failure", "unbounded recursion"})
+		}
 		panic(pathAbort{"bound", fmt.Sprintf("call depth %d exceeded in %s", b, fn)})
 	}
 	if fn.Parent() == nil {
